@@ -356,6 +356,15 @@ def parse_rvalue(s):
                     return ('cast', kind, parse_operand(head[:idx]), head[idx + 4:].strip())
     if s.startswith('copy ') or s.startswith('move ') or s.startswith('const '):
         return ('use', parse_operand(s))
+    # cast of a bare function item:  path::f as fn(..) (PointerCoercion(ReifyFnPointer(..), ..))
+    if s.endswith(')') and re.match(r'[A-Za-z_<]', s):
+        k = s.rfind(' (')
+        if k != -1:
+            kind = s[k + 2:-1]
+            head = s[:k]
+            idx = _find_top(head, ' as ')
+            if idx != -1 and re.match(r'(PointerCoercion|FnPtrToPtr|PtrToPtr|Transmute|PointerExposeProvenance)', kind):
+                return ('cast', kind, parse_operand(head[:idx]), head[idx + 4:].strip())
     # aggregates
     if s.startswith('('):
         close = find_matching(s, 0)
